@@ -78,22 +78,24 @@ func genCase(t *rapid.T) Case {
 		return rapid.SampledFrom([]int{10, 15, 25, 40, 80, 150, 400, 1000, 2000}).Draw(t, "d")
 	}
 	for i := 0; i < n; i++ {
-		switch rapid.IntRange(0, 14).Draw(t, "kind") {
+		switch rapid.IntRange(0, 16).Draw(t, "kind") {
 		case 10, 11:
 			// the scenario the stale-clock refresh exists for: idle beyond the clock's life, then a timed match
 			dd := d()
 			c.Steps = append(c.Steps, Step{Kind: "idle", Gap: rapid.SampledFrom([]int{1100, 1500, 2500, 5000, 30000}).Draw(t, "longgap")},
 				Step{Kind: "long", D: dd, W: dd + rapid.IntRange(20, 200).Draw(t, "extra")})
-		case 13, 14:
+		case 13, 14, 15, 16:
 			// two or more timed matches released together on a stopped clock, deadlines more than the clock's 1 s slop apart
 			st := Step{Kind: "race"}
 			long := rapid.SampledFrom([]int{1200, 1500, 2000}).Draw(t, "racelong")
 			st.Ds = append(st.Ds, long)
 			st.Ws = append(st.Ws, long+60)
-			k := rapid.IntRange(1, 3).Draw(t, "raceshort")
+			k := rapid.IntRange(2, 7).Draw(t, "raceshort")
 			for j := 0; j < k; j++ {
 				st.Ds = append(st.Ds, rapid.SampledFrom([]int{10, 15, 25}).Draw(t, "raced"))
-				st.Ws = append(st.Ws, 0)
+				// a little work, so that the match polls its deadline at least once: a deadline that was
+				// computed from a stale clock value is already in the past when the match starts
+				st.Ws = append(st.Ws, rapid.IntRange(1, 3).Draw(t, "racework"))
 			}
 			c.Steps = append(c.Steps, st)
 		case 12:
@@ -257,40 +259,46 @@ func runHistory(t *testing.T, c Case) (viol string, labels []string) {
 				stopped = true
 			case "concurrent", "race":
 				labels = append(labels, "concurrent")
+				rounds := 1
 				if st.Kind == "race" {
-					regexp2.StopTimeoutClock()
-					synctest.Wait()
+					rounds = 1 // (more releases per step cost more than they find: every waiting goroutine spins)
 					labels = append(labels, "race-on-stopped-clock")
 				}
-				var wg sync.WaitGroup
-				res := make([]string, len(st.Ds))
-				var gate atomic.Bool
-				var ready atomic.Int32
-				for j := range st.Ds {
-					note(st.Ds[j])
-					if !c.Fresh {
-						rs.get(st.Ds[j]) // compiled before the barrier
+				for round := 0; round < rounds && viol == ""; round++ {
+					if st.Kind == "race" {
+						regexp2.StopTimeoutClock()
+						synctest.Wait()
 					}
-				}
-				for j := range st.Ds {
-					wg.Add(1)
-					go func(j int) {
-						defer wg.Done()
-						// spin barrier: release all goroutines within nanoseconds of each other
-						ready.Add(1)
-						for !gate.Load() {
+					var wg sync.WaitGroup
+					res := make([]string, len(st.Ds))
+					var gate atomic.Bool
+					var ready atomic.Int32
+					for j := range st.Ds {
+						note(st.Ds[j])
+						if !c.Fresh {
+							rs.get(st.Ds[j]) // compiled before the barrier
 						}
-						res[j] = timed(rs, st.Ds[j], st.Ws[j])
-					}(j)
-				}
-				for int(ready.Load()) < len(st.Ds) {
-					runtime.Gosched()
-				}
-				gate.Store(true)
-				wg.Wait()
-				for j, r := range res {
-					if r != "" {
-						fail(fmt.Sprintf("goroutine %d: %s", j, r))
+					}
+					for j := range st.Ds {
+						wg.Add(1)
+						go func(j int) {
+							defer wg.Done()
+							// spin barrier: release all goroutines within nanoseconds of each other
+							ready.Add(1)
+							for !gate.Load() {
+							}
+							res[j] = timed(rs, st.Ds[j], st.Ws[j])
+						}(j)
+					}
+					for int(ready.Load()) < len(st.Ds) {
+						runtime.Gosched()
+					}
+					gate.Store(true)
+					wg.Wait()
+					for j, r := range res {
+						if r != "" {
+							fail(fmt.Sprintf("goroutine %d: %s", j, r))
+						}
 					}
 				}
 				stopped = false
